@@ -24,7 +24,8 @@ Check bsound : bool -> bexp -> Prop.
 Check (eq_refl : bsound = fun via e => forall rho beta e', env_ok rho -> bfold via e = COk e' ->
                                                            beval rho beta e' = beval rho beta e).
 
-(* REFUTED on the tree as it is (fold_via_f64 = true): 9007199254740993 + 1
+(* REFUTED for folding through f64 (the code before fix 8b83ae6a; selected
+   again if the translator finds f64 in the integer path): 9007199254740993 + 1
    and 0x7fffffffffffffff + 1 fold to a different constant than the run-time
    arithmetic computes ... *)
 Theorem fold_sound_refuted :
@@ -46,7 +47,8 @@ Theorem fold_sound_small : forall via e, bwf e = true -> bsmall via e = true -> 
 Proof. exact bfold_sound_small. Qed.
 Print Assumptions fold_sound_small.
 
-(* proved without guard for checked-i64 folding (the repaired variant) *)
+(* proved without guard for checked-i64 folding (the code as it is now:
+   fold_via_f64 = false) *)
 Theorem fold_sound_checked : forall e, bwf e = true -> bsound false e.
 Proof. exact bfold_sound_checked. Qed.
 Print Assumptions fold_sound_checked.
@@ -132,7 +134,8 @@ Proof. exact FastScanProofs.fast_scan_same_verdicts. Qed.
 Print Assumptions fast_scan_same_verdicts.
 
 (* what holds for the eligibility analysis as it is coded now (flag generated):
-   REFUTED without the guard while `N of (set) in (..)` leaves the bit set *)
+   without guard now that `N of (set) in/at ..` clears the bit (fix 2deda6b6);
+   refuted without the guard for the former analysis *)
 Theorem fast_scan_verdicts : fast_statement of_anchor_disallows_fast_scan.
 Proof. exact (fast_statement_holds of_anchor_disallows_fast_scan). Qed.
 Print Assumptions fast_scan_verdicts.
